@@ -598,6 +598,27 @@ impl LuaModuleIndex {
 
 impl LuaIndex for LuaModuleIndex {
     fn remove(&mut self, file_id: FileId) {
+        // Drop the file from the fuzzy-name map first: the early returns below must not skip it,
+        // otherwise the map keeps ids of removed files.
+        if !self.module_name_to_file_ids.is_empty() {
+            let mut module_name = String::new();
+            for (name, file_ids) in &self.module_name_to_file_ids {
+                if file_ids.contains(&file_id) {
+                    module_name = name.clone();
+                    break;
+                }
+            }
+
+            if !module_name.is_empty()
+                && let Some(file_ids) = self.module_name_to_file_ids.get_mut(&module_name)
+            {
+                file_ids.retain(|id| *id != file_id);
+                if file_ids.is_empty() {
+                    self.module_name_to_file_ids.remove(&module_name);
+                }
+            }
+        }
+
         let (mut parent_id, mut child_id) =
             if let Some(module_info) = self.file_module_map.remove(&file_id) {
                 let module_id = module_info.module_id;
@@ -607,7 +628,11 @@ impl LuaIndex for LuaModuleIndex {
                 };
                 node.file_ids.retain(|id| *id != file_id);
                 if node.file_ids.is_empty() && node.children.is_empty() {
-                    (node.parent, Some(module_id))
+                    let parent = node.parent;
+                    // the emptied leaf itself has to go too, not only its emptied ancestors:
+                    // it is unlinked from its parent below and would never be reused
+                    self.module_nodes.remove(&module_id);
+                    (parent, Some(module_id))
                 } else {
                     (None, None)
                 }
@@ -641,28 +666,6 @@ impl LuaIndex for LuaModuleIndex {
                 self.module_nodes.remove(&id);
             } else {
                 break;
-            }
-        }
-
-        if !self.module_name_to_file_ids.is_empty() {
-            let mut module_name = String::new();
-            for (name, file_ids) in &self.module_name_to_file_ids {
-                if file_ids.contains(&file_id) {
-                    module_name = name.clone();
-                    break;
-                }
-            }
-
-            if !module_name.is_empty() {
-                let file_ids = match self.module_name_to_file_ids.get_mut(&module_name) {
-                    Some(ids) => ids,
-                    None => return,
-                };
-
-                file_ids.retain(|id| *id != file_id);
-                if file_ids.is_empty() {
-                    self.module_name_to_file_ids.remove(&module_name);
-                }
             }
         }
     }
